@@ -1,13 +1,12 @@
 CONSTANTS
-  TermsOf <- AbsTerms
-  ShortOf <- AbsShort
+  LabelTerms <- AbsTerms
   Variant = "ok"
   Labels <- L3
   MaxNodes = 4
   MaxDepth = 4
   Alphabet <- AlphaCore
   MaxToks = 1
-  Gen <- Atoms
+  Big = FALSE
 SPECIFICATION SpecTrees
 INVARIANT OrIff
 INVARIANT AndOnlyIfBoth
